@@ -75,7 +75,7 @@ def main():
     na.sort(key=lambda x:x["property_id"])
     m={
      "version":1,
-     "setup_cmd":"cd /verif/sim && CARGO_NET_OFFLINE=true cargo build --release --offline",
+     "setup_cmd":"cd sim && CARGO_NET_OFFLINE=true cargo build --release --offline",
      "hooks":{
        "guard":"cargo feature `verif-hooks` of crate aiken-project (off by default; no workspace build or test enables it)",
        "enable":"/verif/sim depends on /repo/crates/aiken-project by path with features=[\"verif-hooks\"]; ./check rebuilds it from /repo's working tree",
